@@ -5,7 +5,7 @@ use super::*;
 use std::sync::atomic::{AtomicBool, AtomicUsize, Ordering};
 use std::sync::Arc;
 
-#[path = "/verif/kani/libc_model.rs"]
+#[path = "libc_model.rs"]
 mod lm;
 
 // Assumed contract of the registry entry point as seen from flag.rs: the action is kept and run once
